@@ -254,7 +254,8 @@ def run_history(h):
                         ref = DatasetRef(dt, DataCoordinate.standardize(did, universe=r.butler.dimensions), run=op["run"])
                         new = True
                     try:
-                        r.butler.ingest(FileDataset(path=src, refs=[ref]), transfer="move" if op["move"] else "copy")
+                        r.butler.ingest(FileDataset(path=src, refs=[ref]), transfer="move" if op["move"] else "copy",
+                                        record_validation_info=not op.get("noval", False))
                     finally:
                         rec["src_left"] = os.path.exists(src)
                     if new:
